@@ -1,7 +1,7 @@
 #!/bin/bash
 # tools/sweep.sh <tier> <seed>... : runs every registered check on the unchanged tree and reports exit codes (evidence files are restored afterwards).
 tier=$1; shift
-cd /verif
+cd "$(dirname "$0")/.."
 mkdir -p /tmp/w/ev && cp evidence/*.json /tmp/w/ev/ 2>/dev/null
 for seed in "$@"; do
   for c in C01 C02 C03 C04 C05 C06 C07 C08 C09 C10 C11 C12 C13 C14 C15 C16 C17 C18 C19; do
